@@ -123,6 +123,12 @@ def _configs3(tier):
         for aacs in ([(True, True, True), (False, True, True), (False, False, True)] if q else list(itertools.product([False, True], repeat=3))):
             for addrs in ([(128, 128, 128), (128, 128, 129)] if q else [(128, 128, 128), (128, 128, 129), (200, 201, 200), (10, 11, 10)]):
                 out.append([[aacs[i], addrs[i], starts[i], '0'] for i in range(3)])
+    # a contest between two CAs for one address while a third CA claims a DIFFERENT address: the loser's cannot-claim
+    # frame (source 254) reaches the third one before it has started / inside its veto window and must not disturb it
+    for starts in [('0', '100ms', '0'), ('0', '3ms', '240ms')] + ([] if q else [('0', '3ms', '3ms'), ('0', '249.5ms', '100ms')]):
+        for aacs in [(False, False, False), (False, False, True)]:
+            for addrs in ([(128, 128, 140)] if q else [(128, 128, 140), (10, 10, 140), (200, 200, 10)]):
+                out.append([[aacs[i], addrs[i], starts[i], '0'] for i in range(3)])
     return out
 
 
@@ -146,7 +152,7 @@ def jobs(tier):
 def meta(tier):
     return {
         'bounds': ['2 and 3 CAs on separate stacks; 64-bit NAMEs symbolic (valid: reserved bit 0), pairwise distinct; arbitrary-address-capable flag case-split',
-                   'preferred addresses equal / adjacent / distinct in the immediate and veto ranges (see _configs); start offsets and claim delays from the grid ' + str(sorted(GRID)),
+                   'preferred addresses equal / adjacent / distinct in the immediate and veto ranges (see _configs; 3 CAs: all on one address, two on one and the third next to it or elsewhere); start offsets and claim delays from the grid ' + str(sorted(GRID)),
                    'delivery latency of every frame to every receiver: fresh symbolic real in [10 us, 5 ms] (FIFO per receiver kept); scheduling latency 0.1 ms',
                    'quiescence = last start + claim delay + 5 s', 'latency exactly 0 = all frames delivered re-entrantly inside the send call (2 CAs)'],
         'outside': ['4 CAs', 'address pools exhausted (no room below 247)'],
